@@ -200,7 +200,7 @@ func kvKeys(w *world.World) [][]byte {
 			keys = append(keys, append([]byte{}, k...))
 		}
 	}
-	for _, full := range []string{spec.TokPrefix + "F", spec.RolePrefix + "F", spec.NoncePrefix + "S"} {
+	for _, full := range []string{spec.TokPrefix + tF, spec.RolePrefix + tF, spec.NoncePrefix + tS} {
 		for l := 0; l <= len(full); l++ {
 			p := []byte(full[:l])
 			add(p)
@@ -349,7 +349,7 @@ func c08Profiles(tier Tier) []*explore.Profile {
 			return []explore.SeedState{{Name: "roles-only", W: b.W}}
 		},
 		Menu: func(w *world.World) []world.Action {
-			if w.Ghost.Highest["S"] == 0 {
+			if w.Ghost.Highest[tS] == 0 {
 				var acts []world.Action
 				for _, m := range tuples {
 					acts = append(acts, createWith(uni.A0, uni.S, m))
